@@ -17,6 +17,22 @@ thorough tier and a seeded, cell-stratified sample in the quick tier (every cell
                    bodies, `EVAL(E)`, `#define K EVAL(E)`, `:=` and its compound forms, `Hardcode.repeat(start=E)`) x E from
                    a grammar: exhaustively all token strings up to length 3 over {0 1 2 ( ) + - * / % ** //}, a list of
                    degenerate forms (`1/0`, `()`, `(1+)`, `1 2`, `1%0`, `0**-1`, `9**9**9` ...), random deeper expressions
+ vanilla_macros    (strengthening round 4) vanilla macro tokens `$(name)` at EVERY operand position of every condition form
+                   (score / entity / block / data / predicate / custom comparisons / boolean combinations) under every
+                   construct that takes a condition (`if`, `$if`, `while`, `do..while`, `for`, `async while`, `execute if /
+                   unless` with and without brackets, `$execute`), of selectors, scores, NBT paths, function-call arguments
+                   and `$`-prefixed statements (`$say`, `$tp`, `$execute`, `$data`, `$function` ...): 1..3 macros per
+                   construct, in every spelling (bare, connected suffix `$(p)_x`, connected prefix `a$(p)`, two in a row
+                   `$(a)$(b)`, with a gap `$ (a)`, empty, nested, unbalanced, inside strings / ranges / paths)
+ custom_commands   (round 4) `#command W` for the words the command optimiser / first-argument logic looks at (`as`, `run`,
+                   `execute`, `return`, `positioned` ...) x short statements that start with / contain W
+ self_reference    (round 4) compile-time expansions that refer to themselves: @lazy / @if functions calling themselves directly,
+                   through each other, inside blocks / execute / arguments; `#deepdefine` macros that expand to themselves
+                   (directly, mutually, inside brackets, with fan-out), `#define` chains
+ new_json          (round 4) `new <type>(name) [extends (..)] [stringify (paths)] <json>`: paths through objects, lists,
+                   numbers, strings, null x JSON shapes
+ builtin_pairs     (round 4) TWO arguments of a built-in varied together: arrow-function arity x list / object shapes, and
+                   small grids over every pair of integer parameters (`count` below `begin_at`, `stop` below `start` ...)
  stress            the hang detector's own inputs: size-parameterised programs whose cost could be super-linear (towers of
                    powers, huge exponents / literals, long operator and condition chains, deep brackets, long else-if
                    chains, many cases / statements / list elements, nested Hardcode.repeat); run under a longer alarm;
@@ -366,14 +382,302 @@ def stress(tier: str):
     return out
 
 
+# ------------------------------------------------------------------------------------------------ vanilla macros (round 4)
+# spellings of one operand that contains vanilla macro tokens; the first four are the core forms (a macro alone, with a
+# connected suffix, with a connected prefix, two in a row): Tokenizer.merge_vanilla_macro folds `$` + `(p)` [+ connected
+# keyword] into ONE token while the caller is iterating over the list
+MACRO_FORMS = ["$(a)", "$(a)_x", "a$(a)", "$(a)$(b)", "$(a).x", "x_$(a)_y", "$(a)$(b)$(c)", "$(a)_$(b)", "$ (a)", "$(a) _x", "$()", "$( )",
+               "$(a b)", "$(a)(b)", "$($(a))", '"$(a)"', "'$(a)'", "$(a)..$(b)", "..$(a)", "$(a)..", "$(a):$(b)", "-$(a)", "!$(a)",
+               "$(a)$", "$$(a)", "$$", "$", "$(", "$)", "$[a]", "${a}", "$(a", "@$(a)", "@s[tag=$(a)]", "@e[tag=$(a),limit=$(b)]",
+               "$(a)[0]", "$(a){b:1}", "$(a)::$(b)", "::$(a)", "#$(a)", "~$(a)", "$(a)\n_x", "$(a)//c\n", "$(1)", "$(a.b)", "$(a-b)"]
+CORE_FORMS = MACRO_FORMS[:4]
+# (name, text with numbered operand slots, the plain operand of every slot)
+COND_TEMPLATES = [
+    ("score-matches", "score {0} {1} matches {2}", ["@s", "obj", "1.."]),
+    ("score-compare", "score {0} {1} = {2} {3}", ["@s", "obj", "@p", "obj"]),
+    ("score-lt", "score {0} {1} < {2} {3}", ["a", "obj", "b", "obj"]),
+    ("entity", "entity {0}", ["@s"]),
+    ("entity-args", "entity @e[tag={0},limit={1}]", ["t", "1"]),
+    ("entity-scores", "entity @s[scores={{{0}={1}}}]", ["o", "1.."]),
+    ("block", "block {0} {1} {2} {3}", ["~", "~", "~", "stone"]),
+    ("blocks", "blocks {0} {1} {2} all", ["~ ~ ~", "~1 ~1 ~1", "~ ~2 ~"]),
+    ("data-storage", "data storage {0} {1}", ["a:b", "p.q"]),
+    ("data-entity", "data entity {0} {1}", ["@s", "Health"]),
+    ("data-block", "data block {0} {1}", ["~ ~ ~", "Items[0]"]),
+    ("predicate", "predicate {0}", ["ns:p"]),
+    ("biome", "biome ~ ~ ~ {0}", ["plains"]),
+    ("dimension", "dimension {0}", ["overworld"]),
+    ("loaded", "loaded {0} {1} {2}", ["~", "~", "~"]),
+    ("function", "function {0}", ["ns:f"]),
+    ("items", "items entity @s {0} {1}", ["weapon.mainhand", "stick"]),
+    ("bare", "{0}", ["$x"]),
+    ("not", "!{0}", ["$x"]),
+    ("eq", "{0} == {1}", ["$x", "1"]),
+    ("cmp", "{0} >= {1}", ["$x", "$y"]),
+    ("assign-cmp", "{0} = {1}", ["$x", "$y"]),
+    ("matches", "{0} matches {1}", ["$x", "1..2"]),
+    ("obj-sel", "{0}:{1} == {2}", ["obj", "@s", "1"]),
+    ("nbt-eq", "::{0} == {1}", ["a.b", "1"]),
+    ("nbt-exists", "{0}::{1}", ["@s", "Health"]),
+    ("and", "{0} && {1}", ["$x", "$y == 1"]),
+    ("or-and", "{0} || {1} && {2}", ["$x", "$y == 1", "!$z"]),
+    ("paren", "({0}) && !({1} || {2})", ["$x", "$y", "$z > 1"]),
+    ("builtin", "Timer.isOver({0}) && String.isEqual(::{1}, {2})", ["t", "a", '"s"']),
+    ("call", "{0}()", ["f"]),
+]
+# (name, wrapper of a condition `%s`, is a load-level statement)
+COND_WRAPPERS = [
+    ("if", 'if (%s) { say "a"; }'), ("$if", '$if (%s) { say "a"; }'), ("if-else", 'if (%s) { say "a"; } else { say "b"; }'),
+    ("else-if", 'if ($q == 1) { say "a"; } else if (%s) { say "b"; }'), ("if-short", 'if (%s) say "a";'),
+    ("while", 'while (%s) { say "a"; }'), ("do-while", 'do { say "a"; } while (%s);'), ("for", 'for ($i = 0; %s; $i++) { say "a"; }'),
+    ("async-while", 'async while (%s) { say "a"; } 1t;'), ("exec-if-paren", 'execute if (%s) run say "x";'),
+    ("exec-unless-paren", 'execute as @a unless (%s) run { say "x"; }'), ("exec-if-raw", 'execute if %s run say "x";'),
+    ("$exec-if-paren", '$execute if (%s) run say "$(m)";'), ("$exec-if-raw", '$execute if %s run say "x";'),
+    ("return-exec", 'return run execute if (%s) run return 1;'), ("nested", 'if ($q == 1) { while (%s) { say "a"; } }'),
+    ("switch-case", 'switch ($q) { case 1: if (%s) { say "a"; } case 2: say "b"; }'), ("ternary-like", '$r = 0; if (%s) $r = 1;'),
+]
+STMT_TEMPLATES = [
+    ("$tp", "$tp {0} {1} {2} {3};", ["@s", "~", "~1", "~"]),
+    ("tp", "tp {0} {1} {2} {3};", ["@s", "~", "~1", "~"]),
+    ("$say", "$say {0};", ['"hi"']),
+    ("say", "say {0};", ['"hi"']),
+    ("$tellraw", '$tellraw {0} {{"text":{1}}};', ["@a", '"t"']),
+    ("$execute", "$execute as {0} at {1} positioned {2} ~ ~ run tp @s {3} ~ ~;", ["@a", "@s", "~", "~1"]),
+    ("$execute-store", "$execute store result score {0} {1} run data get storage {2} {3} {4};", ["@s", "o", "a:b", "p", "1"]),
+    ("$data", "$data modify storage {0} {1} set value {2};", ["a:b", "p.q", "1"]),
+    ("$nbt-path", "$::{0} = {1};", ["a.b", "1"]),
+    ("nbt-path", "::a.{0}[{1}].b = {2};", ["c", "0", "1"]),
+    ("$nbt-sel", "${0}::{1} = {2};", ["@s", "Health", "1"]),
+    ("nbt-read", "$x = {0}::{1};", ["@s", "Health"]),
+    ("var", "$x = {0};", ["1"]),
+    ("var-op", "$x += {0};", ["$y"]),
+    ("var-const", "$x = (const) {0};", ["$(q)"]),
+    ("var-cast", "$x = ({0}) {1};", ["var", "$(q)"]),
+    ("obj", "{0}:{1} = {2};", ["obj", "@s", "1"]),
+    ("expr", "$x := {0} + {1} * 2;", ["$y", "3"]),
+    ("$function", "$function {0};", ["ns:f"]),
+    ("$function-with", "$function {0} with storage {1} {2};", ["ns:f", "a:b", "p"]),
+    ("call-pos", "g({0});", ['{"a": "1"}']),
+    ("call-kw", "g(a={0});", ['"1"']),
+    ("call-kw2", "g(a={0}, b={1});", ['"1"', '"2"']),
+    ("call-with", "g() with {0};", ["::p"]),
+    ("call-with-obj", "g() with {{a: {0}, b: {1}}};", ["1", '"s"']),
+    ("lazy-call", "l({0}, {1});", ["1", "2"]),
+    ("$builtin", "$Text.tellraw({0}, {1});", ["@a", '"m"']),
+    ("builtin", "Timer.set({0}, {1}, {2});", ["t", "@s", "5"]),
+    ("builtin-kw", "Entity.launch(power={0});", ["1"]),
+    ("$scoreboard", "$scoreboard players operation {0} {1} += {2} {3};", ["@s", "o", "@p", "o"]),
+    ("$schedule", "$schedule function {0} {1};", ["ns:f", "1t"]),
+    ("schedule-call", "schedule g() {0};", ["1t"]),
+    ("$return", "$return {0};", ["1"]),
+    ("return-run", "return run {{ $tp @s {0} {1} ~; }}", ["~", "~"]),
+    ("$kill", "$kill @e[type={0},tag={1},limit={2}];", ["pig", "t", "1"]),
+    ("$give", "$give @s {0}[damage={1}] {2};", ["stick", "1", "1"]),
+    ("$summon", '$summon {0} ~ ~ ~ {{Tags:[{1}],Health:{2}}};', ["pig", '"t"', "1f"]),
+    ("$$", "${0} {1};", ["$(cmd)", "arg"]),
+    ("exec-run-macro", "execute as {0} run {{ $tp @s {1} ~ ~; }} with {2};", ["@a", "$(k)", "::p"]),
+    ("$if-body", '$if ({0}) {{ $say {1}; }}', ["$x == 1", '"$(m)"']),
+    ("switch-on", 'switch ({0}) {{ case 1: say "a"; }}', ["$x"]),
+    ("for-init", 'for ({0} = {1}; $i < {2}; $i++) {{ say "a"; }}', ["$i", "0", "3"]),
+]
+MACRO_PRELUDE = ('\nfunction g() { $tp @s $(a) ~ ~; }\n@lazy function l(a, b) { say "$a $b"; }')
+
+
+def _fill(text, plain, assign):
+    ops = [assign.get(i, p) for i, p in enumerate(plain)]
+    return text.format(*ops)
+
+
+def vanilla_macros(rng, tier: str):
+    """jobs ((stream, cell), job); cell = (family, template, wrapper, number of macro operands, form of the first one)"""
+    multi = 2 if tier == "quick" else 16
+
+    def assignments(nslots):
+        # one macro operand: every slot x every form; two / three macro operands: seeded picks (core forms twice as likely)
+        for i in range(nslots):
+            for f in MACRO_FORMS:
+                yield {i: f}
+        pool = CORE_FORMS * 3 + MACRO_FORMS
+        for _ in range(multi if nslots > 1 else 0):
+            k = min(nslots, rng.choice([2, 2, 3]))
+            slots = rng.sample(range(nslots), k)
+            yield {i: rng.choice(pool) for i in slots}
+        if nslots > 1:      # and every slot at once with each core form
+            for f in CORE_FORMS:
+                yield {i: f for i in range(min(nslots, 3))}
+
+    for tname, text, plain in COND_TEMPLATES:
+        for wname, wrap in COND_WRAPPERS:
+            for a in assignments(len(plain)):
+                cond = _fill(text, plain, a)
+                src = "function f() { " + wrap % cond + ' say "z"; }' + MACRO_PRELUDE
+                first = a[min(a)]
+                yield ("vanilla_macros", ("cond", tname, wname, len(a), first)), dict(src=src, header=None, pack_format=None)
+    for tname, text, plain in STMT_TEMPLATES:
+        for a in assignments(len(plain)):
+            stmt = _fill(text, plain, a)
+            first = a[min(a)]
+            for wname, wrap in (("fn", "function f() { %s say \"z\"; }"), ("exec", "function f() { execute as @a run %s }"),
+                                ("load", "%s")):
+                if wname != "fn" and len(a) > 1:
+                    continue
+                yield ("vanilla_macros", ("stmt", tname, wname, len(a), first)), dict(src=wrap % stmt + MACRO_PRELUDE, header=None,
+                                                                                    pack_format=None)
+
+
+# ------------------------------------------------------------------------------------------------ side streams (round 4)
+COMMAND_WORDS = ["as", "at", "run", "execute", "return", "positioned", "rotated", "if", "unless", "say", "with", "matches", "expand",
+                 "function", "schedule", "store", "mycmd"]
+COMMAND_STMTS = ["{W};", "{W} @s;", "{W} @s @s;", "{W} @p;", "{W} run;", "{W} run say 1;", "{W} execute;", "{W} execute run;", "{W} as @s;",
+                 "{W} {W};", "{W} {W} @s;", "{W} 1;", "{W} matches;", "{W} matches 1;", "{W} with;", "{W} expand;", '{W} "s";', "{W} ();",
+                 "{W} {{}}", "{W} run {{ {W} @s; }}", 'execute {W} @s run say "x";', 'execute as @a run {W} @s;', "return {W} @s;",
+                 "return run {W} @s;", "{W} return;", "{W} positioned @s;", "{W} = 1;", "{W}();", "{W}.x();", "${W} @s;", "{W} $(a);"]
+
+
+def custom_commands():
+    for w in COMMAND_WORDS:
+        for hdr in ("#command " + w, "#command " + w + "\n#command zz", "#del " + w, "#command " + w + "\n#del " + w):
+            for st in COMMAND_STMTS:
+                stmt = st.replace("{W}", w).replace("{{", "{").replace("}}", "}")
+                if not hdr.startswith("#command " + w + "\n") or "run" in stmt or "@s" in stmt:
+                    yield ("custom_commands", (w, hdr.split()[0], st)), dict(src="function f() { " + stmt + " }", header=hdr, pack_format=None)
+                if hdr == "#command " + w:
+                    yield ("custom_commands", (w, "load", st)), dict(src=stmt, header=hdr, pack_format=None)
+
+
+SELF_CALLS = ["f();", "f(1);", "f(a=1);", "execute as @a run f();", 'if ($x == 1) { f(); }', "$y = f();", "return run f();", "g();",
+              'say "a"; f();', "while ($x < 1) { f(); }", "f() with ::p;", "schedule f() 1t;", "Hardcode.repeat((i) => { f(); }, start=0, stop=2);",
+              "execute if (f()) run say 1;", "f(() => { f(); });", "f(f);", "f(f());", "function n() { f(); }", "c.f();", "_();"]
+
+
+def self_reference():
+    for dec in ("@lazy", "@if(value=1)", "@if(value=0)", "@lazy @add(__tick__)", "@add(__tick__) @lazy", "@private @lazy", ""):
+        for params in ("", "a"):
+            for body in SELF_CALLS:
+                defs = [
+                    f"{dec} function f({params}) {{ {body} }} function g() {{ f({'1' if params else ''}); }}",
+                    f"{dec} function f({params}) {{ {body} }} f({'1' if params else ''});",
+                    f"{dec} function f({params}) {{ h({'1' if params else ''}); }} {dec} function h({params}) {{ {body} }} function g() {{ f({'1' if params else ''}); }}",
+                    f"class c {{ {dec} function f({params}) {{ {body} }} function g() {{ c.f({'1' if params else ''}); }} }}",
+                ]
+                for n, src in enumerate(defs):
+                    yield ("self_reference", ("lazy", dec, n, body[:12])), dict(src=src, header=None, pack_format=None)
+    heads = ["#deepdefine F(x) F(x)", "#deepdefine F(x) G(x)\n#deepdefine G(x) F(x)", "#deepdefine F(x) say (F(x))", "#deepdefine F(x) F(x) F(x)",
+             "#deepdefine F(x) {F(x)}", "#deepdefine F(x) [F(x)]", "#deepdefine F(x) x F(x)", "#deepdefine F(x) F(F(x))", "#deepdefine F(x, y) F(y, x)",
+             "#deepdefine F(x) G\n#define G F(1)", "#define G F(1)\n#deepdefine F(x) G", "#deepdefine F(x) F", "#deepdefine F(x) F()",
+             "#deepdefine F(x) F(x, x)", "#bind EVAL\n#deepdefine F(x) EVAL(F(x))", "#deepdefine F(x) \"F(x)\"", "#define F F", "#define F G\n#define G F",
+             "#define F(x) F(x)", "#define F(x) G(x)\n#define G(x) F(x)", "#deepdefine F(x) say x\n#deepdefine G(x) F(F(x))",
+             "\n".join(["#deepdefine A0(x) say x"] + ["#deepdefine A%d(x) A%d(x)" % (i, i - 1) for i in range(1, 40)]),
+             "\n".join(["#deepdefine A0(x) say x"] + ["#deepdefine A%d(x) A%d(x)" % (i, i - 1) for i in range(1, 200)])]
+    uses = ["F(1);", "function f() { F(1); }", "function f() { $x = F(1); }", "function f() { if (F(1)) { say \"a\"; } }", "function f() { F; }",
+            "function f() { F(1, 2); }", "function f() { G(1); }", "function f() { A39(\"a\"); }", "function f() { A199(\"a\"); }", "function f() { say \"F(1)\"; }"]
+    for h in heads:
+        for u in uses:
+            yield ("self_reference", ("macro", h[:24], u[:20])), dict(src=u, header=h, pack_format=None)
+
+
+JSON_SHAPES = ['{"a": 5}', '{"a": "bcd"}', '{"a": {"b": 5}}', '{"a": {"b": {"c": 5}}}', '{"a": [1, 2]}', '{"a": ["b"]}', '{"a": null}', '{"a": true}',
+               '{"a": 1.5}', '{}', '[]', '[1, 2]', '[{"a": {"b": 1}}]', '{"a": {"b": []}}', '{"a": {"0": 1}}', '{"": {"": 1}}', '{"a": {"b": "s"}, "b": 1}', '"s"', '5']
+STRINGIFY_PATHS = ["a", "a.b", "a.b.c", "b", "a.0", "0", "0.a", "a..b", ".a", "a.", "", "a, a.b", "a.b, a", "a.b, a.b", "a.b.c.d.e", "x.y"]
+
+
+def new_json():
+    for js in JSON_SHAPES:
+        semi = "" if js.endswith("}") else ";"
+        for pth in STRINGIFY_PATHS:
+            yield ("new_json", ("stringify", js, pth)), dict(src=f"new advancements(x) stringify({pth}) {js}{semi}", header=None, pack_format=None)
+        for base in JSON_SHAPES[:12]:
+            bsemi = "" if base.endswith("}") else ";"
+            yield ("new_json", ("extends", js, base)), dict(src=f"new advancements(b) {base}{bsemi}\nnew advancements(x) extends (b) {js}{semi}",
+                                                          header=None, pack_format=None)
+        for pth in STRINGIFY_PATHS[:6]:
+            yield ("new_json", ("extends-stringify", js, pth)), dict(
+                src=f'new advancements(b) {{"a": {{"b": 1}}}}\nnew advancements(x) extends (b) stringify({pth}) {js}{semi}', header=None, pack_format=None)
+            yield ("new_json", ("class-stringify", js, pth)), dict(src=f"class k {{ new loot_tables(x) stringify({pth}) {js}{semi} }}", header=None,
+                                                                   pack_format=None)
+
+
+ARROWS = ['() => { say "cb"; }', '(i) => { say "$i"; }', '(i, a) => { say "$i $a"; }', '(i, a, b) => { say "$i $a $b"; }', '(_, a) => { say "$a"; }']
+PAIR_LISTS = ["[]", "[ ]", "[[]]", "[[], []]", '[["a"]]', '[["a"], ["b"]]', '[["a", "b"], ["c"]]', '["a"]', '["a", "b"]', '[[["a"]]]', "[1]", '[[1]]',
+              "{}", '{1: () => { say "a"; }}', '{0: () => { say "a"; }}', '{2: () => { say "a"; }}', '{-1: () => { say "a"; }}', "{1: f}", '{"a": "b"}']
+PAIR_INTS = ["-1", "0", "1", "2", "3", "10"]
+
+
+def builtin_pairs(registry):
+    for b in registry:
+        name, args = b["name"], list(b["args"].items())
+        base = {k: base_value(name, k, t) for k, t in args}
+        arrows = [k for k, t in args if t in ("ARROW_FUNC", "FUNC")]
+        shaped = [k for k, t in args if t in ("LIST", "JS_OBJECT", "JSON")]
+        ints = [k for k, t in args if t in ("INTEGER", "FLOAT", "SCOREBOARD_INT")]
+        # compile-time expanders (their arrow function's ARITY and their integer bounds decide how often the body is expanded):
+        # every pair is run in the quick tier too
+        full = "!" if any(t == "ARROW_FUNC" for _, t in args) else ""
+
+        def job(a):
+            call = name + "(" + ", ".join(f"{kk}={vv}" for kk, vv in a.items()) + ");"
+            return dict(src=_wrap(b, call), header=None, pack_format=None)
+        for fk in arrows:
+            for av in ARROWS:
+                for sk in shaped:
+                    for sv in PAIR_LISTS:
+                        yield ("builtin_pairs", (name, fk, sk, full + "arrow-shape")), job(dict(base, **{fk: av, sk: sv}))
+                for ik in ints[:3]:
+                    for iv in PAIR_INTS[:4]:
+                        yield ("builtin_pairs", (name, fk, ik, full + "arrow-int")), job(dict(base, **{fk: av, ik: iv}))
+        for n, i1 in enumerate(ints):
+            for i2 in ints[n + 1:]:
+                for v1 in PAIR_INTS:
+                    for v2 in PAIR_INTS:
+                        yield ("builtin_pairs", (name, i1, i2, full + "int-int")), job(dict(base, **{i1: v1, i2: v2}))
+        for sk in shaped:       # a shaped argument alone in every pack-format / switch lowering
+            for sv in PAIR_LISTS:
+                for hdr, pf in ((None, None), ("#forcebst", None), (None, "48"), (None, "15")):
+                    j = job(dict(base, **{sk: sv}))
+                    yield ("builtin_pairs", (name, sk, str(pf) + str(hdr), "shape-format")), dict(j, header=hdr, pack_format=pf)
+
+
 # ------------------------------------------------------------------------------------------------ quick-tier sampling
 _HUGE_POWER = re.compile(r"\*\*[\s(]*-?\d{5,}|\*\*[^;\"]*\*\*|\d{300,}")
 
 
 def quick_sample(stream: str, items: list, rng) -> list:
     """seeded sample for the quick tier; always: every cheap exhaustive part, and one member of every cell"""
-    if stream == "nested_decls":
+    if stream in ("nested_decls", "custom_commands", "new_json"):
         return items
+    if stream == "self_reference":      # every macro form; the lazy forms with / without a parameter alternately
+        return [it for n, it in enumerate(items) if it[0][1][0] == "macro" or (n // 4 + n // 80) % 2 == 0]
+    if stream == "builtin_pairs":       # per (built-in, the two parameters, kind): a seeded handful
+        cells = {}
+        for it in items:
+            cells.setdefault(it[0][1], []).append(it)
+        out = []
+        for key in sorted(cells, key=str):
+            out += cells[key] if key[3].startswith("!") else rng.sample(cells[key], min(6, len(cells[key])))
+        return out
+    if stream == "vanilla_macros":
+        # always: every multi-macro pick (incl. each core form in all slots at once, per template and wrapper); one operand
+        # slot per (template, core form, wrapper); sampled: the other spellings, per (template, wrapper) and per
+        # (spelling, wrapper / statement template)
+        keep, cells = [], {}
+        for it in items:
+            (st, cell), job = it
+            fam, tname, wname, n, first = cell
+            if n > 1:
+                keep.append(it)
+            elif first in CORE_FORMS:       # one operand slot per (template, core form, wrapper)
+                cells.setdefault(("core", fam, tname, wname, first), (1, []))[1].append(it)
+            else:
+                cells.setdefault(("tw", fam, tname, wname), (2, []))[1].append(it)
+                cells.setdefault(("fw", fam, first, wname if fam == "cond" else tname), (1, []))[1].append(it)
+        extra, seen = [], set()
+        for key in sorted(cells, key=str):
+            quota, members = cells[key]
+            for it in rng.sample(members, min(quota, len(members))):
+                if id(it) not in seen:
+                    seen.add(id(it))
+                    extra.append(it)
+        return keep + extra
     keep, cells, huge = [], {}, {}
     for it in items:
         (st, cell), job = it
